@@ -643,7 +643,7 @@ func (s *sim) runFileFault(trunc bool) {
 		}
 		bit = enumByte(j/8, skipPad)*8 + j%8
 	} else {
-		bit = s.drawBit(size, v2)
+		bit = s.drawBit(size, v2, file)
 	}
 	s.non = true
 	s.flipRaw(filePath, bit)
@@ -676,7 +676,7 @@ func regionClass(r string) string {
 // drawBit picks the bit to flip, spreading the choice over the regions of the
 // file (a uniform draw would almost always land in the payload of a large
 // file and in the padding of a small one).
-func (s *sim) drawBit(size int64, v2 bool) int64 {
+func (s *sim) drawBit(size int64, v2 bool, file []byte) int64 {
 	var lo, hi int64
 	wTail := 10
 	if size > int64(headerSize+blockSize) {
@@ -685,6 +685,18 @@ func (s *sim) drawBit(size int64, v2 bool) int64 {
 	switch s.src.Weighted([]int{30, 8, 22, 10, 14, 16, wTail}) {
 	case 6: // the length the v2 tail records (16 bytes before the end of the file)
 		lo, hi = size-16, size-8
+		if lo >= 0 && int64(len(file)) == size && s.src.Chance(3, 4) {
+			// a flip that makes the recorded length smaller: one of its set bits
+			var set []int64
+			for b := lo * 8; b < hi*8; b++ {
+				if file[b/8]&(1<<uint(b%8)) != 0 {
+					set = append(set, b)
+				}
+			}
+			if len(set) > 0 {
+				return set[s.src.Intn(len(set))]
+			}
+		}
 	case 0: // payload
 		lo, hi = int64(headerSize), size
 	case 1: // header length field
